@@ -572,3 +572,16 @@ def wake_all(w, g, version, ids):
         return
     for nid in ids:
         step_line(w, g, wakeup_line(w, version, nid))
+
+
+class Recorder:
+    """Stand-in callable that records its first argument (native in both modes)."""
+
+    __symex_native__ = True
+
+    def __init__(self, sink):
+        self.sink = sink
+
+    def __call__(self, data):
+        self.sink.append(data)
+        return None
